@@ -32,7 +32,7 @@ Definition check_sub (s : daily_state) (kr : string * list prow) : bool :=
 (* what the implementation did with a document *)
 Inductive outcome :=
 | Rejected                                    (* from_dict raised *)
-| Accepted (redump : json)                    (* json.loads(from_dict(d).to_json()) *)
+| Accepted (redump : option json)             (* json.loads(from_dict(d).to_json()); None = the very document d *)
            (preds : list (string * list prow))       (* _predict_submodel of the reloaded object, per split key *)
            (season weekday : list json).     (* settings.season._num_dict / weekday_weekend._num_dict values *)
 
@@ -59,7 +59,8 @@ Definition check_doc (cs : mclass * json * outcome) : bool :=
   let '(c, d, o) := cs in
   match o with
   | Rejected => match from_doc' c d with None => true | Some _ => false end
-  | Accepted redump preds season weekday =>
+  | Accepted redump0 preds season weekday =>
+      let redump := match redump0 with Some r => r | None => d end in
       match from_doc' c d with
       | Some s => check_accept c s redump preds season weekday
       | None =>
